@@ -6,7 +6,7 @@
 # Prints DETECTED / MISSED.
 set -u
 ID="$1"; cd "$(dirname "$0")/.." || exit 2
-PROP="${2:-$(python3 -c "import json;print(json.load(open('seeded/$ID/meta.json'))['property'])")}"
+PROP="${2:-$(python3 -c "import json;m=json.load(open('seeded/$ID/meta.json'));print(m.get('check_property',m['property']))")}"
 TIER="${3:-quick}"
 WT=$(mktemp -d /tmp/seedrun-XXXXXX); OUT=$(mktemp -d /tmp/seedout-XXXXXX)
 git -C /repo worktree add --detach "$WT" HEAD >/dev/null 2>&1 || exit 2
